@@ -113,20 +113,8 @@ theorem pv_vpush {s' : St CHeap} {b : Bool} (ep : ExtProc ext) (g : GoodI s0) (l
   obtain ⟨hpos, hcell, rfl⟩ := pop_inv hp1
   have hcell' : s0.stack.cells[s0.stack.sp]? = some v := hcell
   have nv : neB s0.heap v = true := p.stk _ _ (Nat.le_refl _) hcell'
-  have nvec : neB s0.heap (deref s0.heap v) = true := by
-    cases v with
-    | ptr q =>
-      show neB s0.heap (getAt s0.heap q) = true
-      unfold getAt
-      cases hc : s0.heap.cells[q]? with
-      | none => rfl
-      | some c =>
-        cases c with
-        | val w => exact neB_of_valPB (p.hp.cells q _ hc)
-        | _ => rfl
-    | _ => exact nv
   obtain ⟨hp', es⟩ := ep.vpush s0.heap (deref s0.heap v) s0.acc h' p.hp lf g.accv p.acc h2
-  refine ⟨hp', es.neB nvec, ((p.sm.resp (st' := { s0.stack with sp := s0.stack.sp - 1 }) rfl (.inr ?_)).heap es).stk⟩
+  refine ⟨hp', es.neB nv, ((p.sm.resp (st' := { s0.stack with sp := s0.stack.sp - 1 }) rfl (.inr ?_)).heap es).stk⟩
   show s0.stack.sp - 1 ≤ s0.stack.sp
   omega
 
